@@ -1162,7 +1162,29 @@ def gen_hci(rng, tier, seed):
         else:
             n = rng.choice([0, 1, 2, 8])
             frames.append((bytes([rng.choice([0x00, 0x01, 0x06, 0x07, 0x7F, 0xFF])]) + bytes(rng.randrange(256) for _ in range(n))).hex())
-    return {'frames': frames, 'victim_central': rng.random() < 0.5, 'pending_cmd': rng.random() < 0.3, 'profile': rng.choice(['zero', 'zero', 'lan', 'burst']), '_lists': ['frames']}
+    return {'frames': frames, 'victim_central': rng.random() < 0.5, 'pending_cmd': rng.random() < 0.3, 'profile': rng.choice(['zero', 'zero', 'lan', 'burst']), '_lists': ['frames'],
+            'via_stream': rng.random() < 0.3}
+
+
+def _stream_safe(fr: bytes) -> bool:
+    """True if the chunk is exactly one packet by its own length field, or starts with a byte that is no packet type."""
+    if not fr:
+        return True
+    t = fr[0]
+    if t not in (1, 2, 3, 4, 5):
+        return True
+    try:
+        if t == 1:
+            return len(fr) >= 4 and len(fr) == 4 + fr[3]
+        if t == 2:
+            return len(fr) >= 5 and len(fr) == 5 + struct.unpack_from('<H', fr, 3)[0]
+        if t == 3:
+            return len(fr) >= 4 and len(fr) == 4 + fr[3]
+        if t == 4:
+            return len(fr) >= 3 and len(fr) == 3 + fr[2]
+        return len(fr) >= 5 and len(fr) == 5 + (struct.unpack_from('<H', fr, 3)[0] & 0x3FFF)
+    except struct.error:
+        return False
 
 
 DISRUPTIVE = ('Disconnection_Complete', 'Connection_Complete', 'Enhanced_Connection_Complete', 'Hardware_Error')
@@ -1226,6 +1248,14 @@ def run_hci(case):
         frames = [bytes.fromhex(f) for f in case['frames']]
         disrupted = False
         pending = None
+        if case.get('via_stream'):
+            # the controller's bytes reach the host the way they do on a serial line / TCP / UNIX socket: through the stream
+            # transports' protocol object and its push parser (a hostile "packet" is then just a chunk of bytes)
+            from bumble.transport import common as _tc
+            src = sim.call(_tc.StreamPacketSource)
+            src.set_packet_sink(victim.host)
+            victim.c2h.deliver = src.data_received
+            sim.probe('controller_bytes_through_the_stream_parser')
         try:
             if case.get('pending_cmd'):
                 # a command of the victim is on its way to the controller (held back) while the hostile packets arrive
@@ -1234,6 +1264,11 @@ def run_hci(case):
                 sim.loop.settle(vt_budget=0.001)
                 sim.probe('client_request_pending_during_attack')
             for fr in frames:
+                if case.get('via_stream') and not _stream_safe(fr):
+                    # on a byte stream a packet whose length field promises more (or fewer) bytes than follow desynchronises
+                    # every framer for good: that is the nature of the transport, not a reaction of the stack to be judged
+                    sim.probe('hostile_chunk_not_fed_to_the_stream_(would_desynchronise_any_framer)')
+                    continue
                 if _legit_disruption(fr, cv.handle):
                     disrupted = True
                 process(sim, label, victim.c2h.inject, fr, vt=0.005 if pending is not None and not pending.done() else 1.0)
